@@ -129,6 +129,23 @@ class CylGrid:
                 ts.append((s * delta - s0[ok]) / sd[ok])
         return ts
 
+    def tangent_to_inner(self, o, d, delta):
+        """True when the line is tangent to the inner bounding cylinder within the band in which raysect's
+        Cylinder.hit cannot tell the entering from the leaving intersection (discriminant b^2-4ac rounds to ~0:
+        |r_in^2 - r_ca^2| <~ 3e-16 |o_xy|^2 measured; 10x safety + the 1e-9 lateral offsets of daughter rays)."""
+        a = d[0] * d[0] + d[1] * d[1]
+        if a < 1e-24:
+            return False
+        b = o[0] * d[0] + o[1] * d[1]
+        oxy2 = o[0] * o[0] + o[1] * o[1]
+        tca = -b / a
+        zca = o[2] + tca * d[2]
+        if zca < -1e-6 - delta or zca > self.z_top + 1e-6 + delta:
+            return False
+        q = self.r_in ** 2 - (oxy2 - b * b / a)
+        band = 3e-15 * (oxy2 + self.ro ** 2 + 1.0) + 1e-8 * self.r_in + 1e-16
+        return bool(abs(q) <= band)
+
     def classify(self, P, delta):
         x, y, z = P[:, 0], P[:, 1], P[:, 2]
         r = np.hypot(x, y)
@@ -233,6 +250,9 @@ def analyse(grid, o, d, step, ms, delta):
     A.dropped_short = 0
     A.origin_ambiguous = False
     A.tmax = 0.0
+    A.tangent_inner = False
+    if grid.kind == "cyl":
+        A.tangent_inner = grid.tangent_to_inner(o, d, delta)
     A.total_lo = 0.0
     A.total_hi = 0.0
     A._seq = None
@@ -300,6 +320,8 @@ def analyse(grid, o, d, step, ms, delta):
     np.add.at(A.lo, flat_main[sel], ln[sel])
     # ---- hi: every candidate cell of every possibly-inside piece ----------------------------------------------
     normal = keep & ~phi_all
+    m = len(ln)
+    cand = np.full((m, 8), -1, dtype=np.int64)          # candidate cells of each piece (-1 = unused slot)
     for mask in range(8):
         use = normal.copy()
         idx3 = main.copy()
@@ -308,8 +330,12 @@ def analyse(grid, o, d, step, ms, delta):
                 use &= alt[:, a] >= 0
                 idx3[:, a] = np.where(alt[:, a] >= 0, alt[:, a], idx3[:, a])
         if use.any():
-            np.add.at(A.hi, grid.flat(idx3[use]), ln[use])
+            fl = grid.flat(idx3[use])
+            np.add.at(A.hi, fl, ln[use])
+            cand[use, mask] = fl
+    extra_visit = 0
     if (keep & phi_all).any():
+        extra_visit = 1
         for k in np.flatnonzero(keep & phi_all):
             rs = {int(main[k, 0])} | ({int(alt[k, 0])} if alt[k, 0] >= 0 else set())
             zs = {int(main[k, 2])} | ({int(alt[k, 2])} if alt[k, 2] >= 0 else set())
@@ -317,10 +343,14 @@ def analyse(grid, o, d, step, ms, delta):
                 for iz in zs:
                     for ip in range(grid.shape[1]):
                         A.hi[(ir * grid.shape[1] + ip) * grid.shape[2] + iz] += ln[k]
-    # ---- number of separate visits per cell (unambiguous pieces only; anything else separates runs) ----------
-    u = np.where(unamb, flat_main, -1)
-    st = (u >= 0) & (u != np.concatenate(([-1], u[:-1])))
-    A.runs = np.bincount(u[st], minlength=ncell)
+    # ---- number of separate visits per cell: maximal runs of consecutive pieces that have the cell among their
+    #      candidates (a piece on the axis, where every phi cell is a candidate, counts as one more visit for all)
+    prevc = np.vstack([np.full((1, 8), -1, dtype=np.int64), cand[:-1]])
+    cont = (cand[:, :, None] == prevc[:, None, :]).any(axis=2)           # candidate already present in previous piece
+    starts = (cand >= 0) & ~cont
+    A.runs = np.bincount(cand[starts], minlength=ncell) + extra_visit
+    A._cand = cand
+    A._extra_visit = extra_visit
     A.total_lo = float(A.lo.sum())
     A.total_hi = float(ln[keep].sum())
     A._seq = (flat_main, keep, seg_id, unamb, ln)
@@ -328,16 +358,18 @@ def analyse(grid, o, d, step, ms, delta):
 
 
 def active_bounds(A, active_flat):
-    """Bounds on the length of the ray inside the union of the active cells, and the number of separate active runs."""
+    """Bounds on the length of the ray inside the union of the active cells, and the number of separate visits of
+    that union (maximal runs of consecutive pieces with at least one active candidate cell)."""
     if A._seq is None:
         return 0.0, 0.0, 0
     flat_main, keep, seg_id, unamb, ln = A._seq
     lo = float(A.lo[active_flat].sum())
     hi = float(min(A.hi[active_flat].sum(), A.total_hi))
-    act = keep & active_flat[flat_main]
+    cand = A._cand
+    act = (np.where(cand >= 0, active_flat[np.clip(cand, 0, None)], False)).any(axis=1)
     key = np.where(act, seg_id + 1, 0)
     starts = (key > 0) & (key != np.concatenate(([0], key[:-1])))
-    return lo, hi, int(starts.sum())
+    return lo, hi, int(starts.sum()) + A._extra_visit
 
 
 def fine_sample(grid, o, d, tmax, N):
